@@ -7,7 +7,10 @@ EXTENDS Nurbs
 CONSTANTS Breaks, Degs, MaxNpts, Acts, PtKinds, WtKinds, ExtraNodes, NodeSize,
           Scenario, PrepDepth, OtherDegs, OtherMaxNpts
 
-AllKV == KVs(Breaks, Degs, MaxNpts)
+(* universes over more than 4 break points are SPARSE: about one multiplicity pattern in 13 (a fixed arithmetic  *)
+(* selection), so that degrees 3..4 over 6 break points stay small enough to replay                              *)
+KeepSparse(U) == (SumSeq([i \in 1..Len(U) |-> R(i * (U[i][1] + 3 * U[i][2]))])[1] % 13) = 0
+AllKV == IF Len(Breaks) <= 4 THEN KVs(Breaks, Degs, MaxNpts) ELSE {U \in KVs(Breaks, Degs, MaxNpts) : KeepSparse(U)}
 
 Pts(n) == (IF "gen" \in PtKinds THEN {Gen1(n), Gen2(n)} ELSE {})
           \cup (IF "pos" \in PtKinds THEN {[i \in 1..n |-> R(1 + ((i * 3) % 4))]} ELSE {})
@@ -104,11 +107,12 @@ MCArgs(name, h, dep) ==
          IF Scenario = "single" THEN
            {[obj |-> "a", nodes |-> n] : n \in MultisetsUpTo(NodePool(U), NodeSize)}
            \cup {[obj |-> "a", nodes |-> <<Umin(U), Umax(U)>>]}
-           \cup {[obj |-> "a", nodes |-> <<x, y>>] : x, y \in {z \in Midpoints(U) : TRUE}}
+           \cup (IF Len(Breaks) > 4 THEN {} ELSE {[obj |-> "a", nodes |-> <<x, y>>] : x, y \in {z \in Midpoints(U) : TRUE}})
            \* unsorted requests of three nodes (repetition counts that differ, non-adjacent repeats)
-           \cup {[obj |-> "a", nodes |-> n] :
+           \cup (IF Len(Breaks) > 4 THEN {} ELSE
+                 {[obj |-> "a", nodes |-> n] :
                     n \in {m \in SeqsUpTo(Midpoints(U) \cup {x \in InteriorSet(U) : MultOf(U, x) = 1}, 3) :
-                             Len(m) = 3 /\ ~(Le(m[1], m[2]) /\ Le(m[2], m[3]))}}
+                             Len(m) = 3 /\ ~(Le(m[1], m[2]) /\ Le(m[2], m[3]))}})
            \* many nodes in one call: every span midpoint up to Deg times (interleaved order), as a numpy array / generator;
            \* thirds of the first span with a midpoint in between
            \cup (IF Deg(U) = 0 THEN {} ELSE
@@ -239,6 +243,8 @@ MCArgs(name, h, dep) ==
 
 BreaksQ == <<R(-1), R(0), R(2), R(3)>>
 BreaksT == <<R(0), Half, R(2), R(3)>>
+BreaksW == <<R(-1), R(0), Half, R(2), R(3), R(5)>>   \* wide: four interior break points, unequal spans
+DegsW == 3..4
 BreaksN == <<R(0), Q(1, 3), Q(2, 3), R(1)>>   \* a SHORT interval: max(1, umax-umin) = 1, the tolerance bound is not diluted
 DegsQ == 0..2
 DegsT == 0..3
